@@ -51,8 +51,9 @@ EXTRA = {
     'W5': [('a', {'A1': '=b!A1+c!A1'}), ('b', {'A1': '=c!A1*2'}), ('c', {'A1': 7})],
     # constants that are equal as Python values but not as cell values, in both orders: a value-keyed cache across
     # translations changes the text of the workbook that comes second
-    'W10': [('S', {'A1': True, 'A2': 1, 'A3': 0, 'A4': False, 'A5': 1.0, 'B1': '=A1&A2&A3&A4'})],
-    'W11': [('S', {'A1': 1, 'A2': True, 'A3': False, 'A4': 0, 'A5': 2, 'B1': '=A1&A2&A3&A4'})],
+    'W10': [('S', {'A1': True, 'A2': 1, 'A3': 0, 'A4': False, 'A5': 1.0, 'B1': '=A1&A2&A3&A4', 'C1': '=SUM(A:A)+COUNT(A:B)'})],
+    'W11': [('S', {'A1': 1, 'A2': True, 'A3': False, 'A4': 0, 'A5': 2, 'A6': 4, 'A7': 8, 'B1': '=A1&A2&A3&A4', 'C1': '=SUM(A:A)+COUNT(A:B)'})],
+    'W12': [('S', {'A1': 5, 'A2': 6, 'C1': '=SUM(A:A)+COUNT(A:B)', 'D1': '=VLOOKUP(6,A:B,1,0)'})],
     'W6': [('S', {f'{c}{r}': (r * 10 + i if (r + i) % 3 else f'={c}{r - 1 or 9}+1') for i, c in enumerate('ABCDE')
                   for r in range(1, 9) if not (r == 1 and (r + i) % 3 == 0)})],
 }
@@ -75,7 +76,8 @@ def paths():
     return _PATHS
 
 
-OPS = [('path', 'W1'), ('path', 'W2'), ('path', 'W3'), ('entry', 'e1', 'fresh'), ('entry', 'e2', 'fresh'),
+# 'rewrite': the file behind the path of W1 gets other content and the SAME path is handed to the parser again
+OPS = [('path', 'W1'), ('path', 'W2'), ('path', 'W3'), ('rewrite', 'W1'), ('entry', 'e1', 'fresh'), ('entry', 'e2', 'fresh'),
        ('entry', 'e2', 'reused'), ('entry', 'e3', 'reused'), ('entry', None, None), ('enable',), ('disable',), ('get',),
        ('write',)]
 
@@ -109,8 +111,22 @@ def outcome_of(parser_call):
         return [D.exc_kind(e)]
 
 
+_W1_ON_DISK = [0]
+W1_V1 = [('S', {'A1': '=B1+T!A1', 'B1': 3, 'C1': '=SUM(A1:B1)'}), ('T', {'A1': '=S!B1*2', 'B1': 5})]
+
+
+def sync_files(model):
+    """The file behind W1's path holds the content version of the model state that is about to act."""
+    v = model.get('w1', 0)
+    if _W1_ON_DISK[0] != v:
+        with open(paths()['W1'], 'wb') as f:
+            f.write(D.build_xlsx(W1_V1 if v else WORKBOOKS['W1']).getvalue())
+        _W1_ON_DISK[0] = v
+
+
 def oracle(model, stats):
-    key = (model['path'], model['entry'], model['safety'])
+    sync_files(model)
+    key = (model['path'], model.get('w1', 0) if model['path'] == 'W1' else 0, model['entry'], model['safety'])
     if key not in _ORACLE:
         p = D.Parser()
         if model['safety']:
@@ -141,7 +157,13 @@ def apply_op(parser, reused, model, op, stats, tmpdir):
     """Applies one operation to the live objects and the model; returns a violation detail or None."""
     kind = op[0]
     stats['transitions'] += 1
-    if kind == 'path':
+    sync_files(model)
+    if kind == 'rewrite':
+        model['w1'] = 1 - model.get('w1', 0)
+        sync_files(model)
+        parser.set_excel_file_path(paths()['W1'])
+        model['path'] = 'W1'
+    elif kind == 'path':
         parser.set_excel_file_path(paths()[op[1]])
         model['path'] = op[1]
     elif kind == 'entry':
@@ -194,7 +216,7 @@ def run_bfs(cases, stats):
     vio = []
     try:
         init = (D.Parser(), {}, {'path': None, 'entry': None, 'safety': True})
-        seen = {canon(init[0], init[1]): ()}
+        seen = {canon(init[0], init[1]) + (0,): ()}
         frontier = [((), init)]
         max_depth = 0
         for d in range(1, depth + 1):
@@ -215,7 +237,7 @@ def run_bfs(cases, stats):
                                     'observed': {'history': [list(OPS[o]) for o in h2], 'got': bad['got']}, 'noconfirm': True})
                         continue
                     stats['out:ok'] += 1
-                    k = canon(parser, reused)
+                    k = canon(parser, reused) + (model.get('w1', 0),)
                     if k not in seen:
                         seen[k] = h2
                         nxt.append((h2, (parser, reused, model)))
@@ -233,7 +255,7 @@ def run_bfs(cases, stats):
             for oi in hist:
                 apply_op(parser, reused, model, OPS[oi], st, tmpdir)
             stats['x:replayed_histories'] += 1
-            if canon(parser, reused) != k:
+            if canon(parser, reused) + (model.get('w1', 0),) != k:
                 vio.append({'i': 0, 'desc': {'clause': 'replay_divergence', 'outcome': 'HARNESS'}, 'expected': repr(k),
                             'observed': {'history': [list(OPS[o]) for o in hist], 'got': repr(canon(parser, reused))},
                             'noconfirm': True})
